@@ -795,7 +795,7 @@ func c20Plans(thorough bool) []c20Plan {
 				Settings: [3][]c20Setting{setAll, setAll[:3], set2}},
 			c20Plan{Schema: mk("i", c20IntCol("i", false, true)), Rows: [3]int{5, 5, 5}, Times: nt,
 				Settings: [3][]c20Setting{setAll, setAll[:3], set2}},
-			c20Plan{Schema: mk("s,i", c20StrCol("s", false, true), c20IntCol("i", false, true)), Rows: [3]int{5, 4, 2}, Times: nt,
+			c20Plan{Schema: mk("s,i", c20StrCol("s", false, true), c20IntCol("i", false, true)), Rows: [3]int{5, 3, 2}, Times: nt,
 				Settings: [3][]c20Setting{setAll, set2, set1}},
 			c20Plan{Schema: mk("i,s", c20IntCol("i", false, true), c20StrCol("s", false, true)), Rows: [3]int{4, 3, 0}, Times: nt,
 				Settings: [3][]c20Setting{setAll, set2, set1}},
